@@ -1,11 +1,11 @@
 --------------------------- MODULE MC_TableLayout ---------------------------
-(* C14: families of small tables.  Every table of the family is one initial state; the A-layer renders it; the
+(* C14: families of small tables (one render each; histories on one Table object: MC_TableObject).  Every table of the family is one initial state; the A-layer renders it; the
    P-invariants are checked on the drawn text and the finished behaviour is emitted for replay on the real
    Table.render.  Cells are given as sequences of word lengths; the characters of cell c are numbered
    c*100 + 1..K cyclically, words are joined by one blank.                                              *)
 EXTENDS TableLayout, Json
 
-CONSTANTS NColsSet, NRowsSet, HdrSet, StyleSet, AvailSet, IndSet, AlignMode, Pool
+CONSTANTS NColsSet, NRowsSet, HdrSet, StyleSet, AvailSet, IndSet, AlignMode, Pool, DupMode
 
 K == 6
 Word(c, from, len) == [j \in 1..len |-> c * 100 + ((from + j - 2) % K) + 1]
@@ -20,6 +20,8 @@ PoolFull == SeqsUpTo({1, 3, 7}, 3)
 PoolMid == {<<>>, <<1>>, <<3>>, <<7>>, <<3, 1>>, <<1, 7>>, <<7, 3, 1>>, <<3, 3, 3>>, <<15>>, <<2, 2, 2, 2>>}
 PoolSmall == {<<>>, <<2>>, <<5, 1>>, <<9>>, <<1, 1, 4>>}
 PoolTiny == {<<>>, <<3>>, <<4, 2>>, <<8>>}
+PoolDup == {<<3>>, <<7, 3, 7>>, <<3, 3, 3, 3>>, <<15>>, <<1, 7>>}
+ADup == {4, 6, 9, 13}
 \* 0..2 words with lengths 1, 3, 7 and a few longer cells (20 cells)
 PoolQuick == SeqsUpTo({1, 3, 7}, 2) \cup {<<3, 3, 3>>, <<1, 7, 1>>, <<7, 1, 3>>, <<1, 1, 1>>, <<7, 7, 7>>, <<3, 1, 7>>, <<15>>}
 
@@ -29,11 +31,15 @@ AlignsOf(n) == IF AlignMode = 2 THEN [1..n -> {0, 1, 2}]
                ELSE IF AlignMode = 1 THEN {[k \in 1..n |-> (k + s) % 3] : s \in 0..2}
                ELSE {[k \in 1..n |-> 0]}
 
+\* DupMode: cells with the same (non-empty) word lengths carry the identical text - a value repeated in several
+\* rows / columns: the text class is the number of the first such cell
+ClassFor(cells, c) == IF DupMode /\ cells[c] # <<>> THEN CHOOSE d \in 1..c : cells[d] = cells[c] /\ \A e \in 1..(d - 1) : cells[e] # cells[c]
+                      ELSE c
 MkInp(n, h, R, st, av, ind, al, cells) ==
   LET RR == R + (IF h THEN 1 ELSE 0)
   IN [n |-> n, hdr |-> h, style |-> st, ind |-> ind, al |-> al,
       T |-> av + ind + BorderWidth(st, n) + n * Excess(st),
-      rows |-> [r \in 1..RR |-> [k \in 1..n |-> TextFrom((r - 1) * n + k, cells[(r - 1) * n + k], 1)]]]
+      rows |-> [r \in 1..RR |-> [k \in 1..n |-> TextFrom(ClassFor(cells, (r - 1) * n + k), cells[(r - 1) * n + k], 1)]]]
 
 Init == \E n \in NColsSet, h \in HdrSet, R \in NRowsSet, st \in StyleSet, av \in AvailSet, ind \in IndSet :
           \E al \in AlignsOf(n) :
